@@ -13,7 +13,7 @@ C12.g per-block parser state is renewed at every block boundary
 import ast
 
 from ..core.globals import GlobalFacts
-from ..core.flow import call_name, calls_in, is_name
+from ..core.flow import call_name, calls_in, is_name, node_calls
 from ..core.loader import AnalysisError, short, own_nodes, norm
 from ..core.report import where
 
@@ -605,7 +605,57 @@ def rule_g(ctx, out):
         raise AnalysisError(f"only {n} segment boundaries with co-renewed state found (parser_asm.build_blocks_from_asm_representation expected)")
 
 
+def rule_h(ctx, out):
+    """What a block is searched with depends on that block and the options alone.  In the per-block loops of the driver (gasol_asm) every
+    local handed to the search / the optimizer (search_optimal, BlockOptimizer, greedy_standalone, generate_statistics_info) is either
+    never written inside the loop, or (re)assigned in the same iteration before the call on every path.  A value that is only updated in
+    place inside the loop (`tout *= ...`) or assigned on some paths only carries over from the blocks processed before."""
+    SINKS = {"search_optimal", "BlockOptimizer", "greedy_standalone", "greedy_from_json", "generate_statistics_info"}
+    n = 0
+    for f in ctx.p.funcs_in("gasol_asm"):
+        loops = [l for l in own_nodes(f.node) if isinstance(l, ast.For)]
+        if not loops:
+            continue
+        cfg = None
+        for loop in loops:
+            inner = {id(x) for st in loop.body for x in ast.walk(st)}
+            calls = [c for st in loop.body for c in calls_in(st) if call_name(c) in SINKS]
+            for c in calls:
+                for a in list(c.args) + [k.value for k in c.keywords]:
+                    if not isinstance(a, ast.Name):
+                        continue
+                    writes_in = [w for w in own_nodes(f.node) if id(w) in inner and (
+                        (isinstance(w, ast.Assign) and any(isinstance(t, ast.Name) and t.id == a.id for tg in w.targets for t in ast.walk(tg)))
+                        or (isinstance(w, ast.AugAssign) and isinstance(w.target, ast.Name) and w.target.id == a.id))]
+                    loop_vars = {x.id for x in ast.walk(loop.target) if isinstance(x, ast.Name)}
+                    if a.id in loop_vars:
+                        continue
+                    n += 1
+                    if not writes_in:
+                        out.ok({"function": f.qual, "argument": a.id, "of": call_name(c), "written_in_loop": False})
+                        continue
+                    cfg = cfg or ctx.cfg(f)
+                    head = next((x for x in cfg.nodes if x.kind == "iter" and x.owner is loop), None)
+                    call_node = next((x for x in cfg.nodes if x.kind == "stmt" and any(cc is c for cc in node_calls(x))), None)
+                    if head is None or call_node is None:
+                        raise AnalysisError(f"{f.name}: flow-graph nodes of the per-block loop not found")
+                    plain = {x.id for x in cfg.nodes if x.kind == "stmt" and isinstance(x.ast, ast.Assign) and id(x.ast) in inner
+                             and any(isinstance(t, ast.Name) and t.id == a.id for tg in x.ast.targets for t in ast.walk(tg))
+                             # an assignment that reads the variable it writes (`tout = tout + ...`, also inside a conditional expression) is an update
+                             and not any(isinstance(r, ast.Name) and r.id == a.id for r in ast.walk(x.ast.value))}
+                    if cfg.paths_avoiding(head, call_node, plain, src_labels={"T"}, skip_exc=True):
+                        w = writes_in[0]
+                        out.bad(f"loop-carried-search-parameter:{f.name}:{a.id}", f"{f.name}: `{a.id}`, handed to {call_name(c)} for every block, is updated inside the loop "
+                                f"(`{short(w, 60)}`) but not assigned afresh on every path of the iteration before the call: the value a block is searched with "
+                                f"depends on the blocks processed before it", where(f, w))
+                    else:
+                        out.ok({"function": f.qual, "argument": a.id, "of": call_name(c), "assigned_afresh_each_iteration": True})
+    if n < 5:
+        raise AnalysisError(f"only {n} search parameters in per-block loops examined")
+
+
 RULES = [
+    ("C12.h", "what a block is searched with is computed in its own iteration", 5, rule_h),
     ("C12.g", "per-block parser state is renewed at every block boundary", 2, rule_g),
     ("C12.f", "no written mutable default argument", 20, rule_f),
     ("C12.e", "no other module keeps run-time state across blocks", 25, rule_e),
